@@ -48,6 +48,10 @@ Definition slot (r : reg) : option (file * N) :=
   | _ => None
   end.
 
+(* the registers a variable can live in: everything with a slot except the temporaries *)
+Definition var_class (r : reg) : bool :=
+  match slot r with Some (f, _) => negb (file_eqb f FTmp) | None => false end.
+
 Definition file_of (rg : regs) (f : file) : list N :=
   match f with
   | FRep => r_report rg | FCtl => r_control rg | FImpl => r_impl rg | FTmp => r_tmp rg | FLoc => r_local rg
